@@ -63,8 +63,9 @@ def csv_(
     if not file_path.parent.exists():
         file_path.parent.mkdir(parents=True, exist_ok=False)
          
-    # Get data types needed to define numpy array
+    # Get data types needed to define numpy array (the given 'fields' dictionary is not changed)
     field_types = list()
+    formats = dict()
     for field, format_ in fields.items():
         if "s" in format_:
             field_types.append(object)
@@ -74,18 +75,23 @@ def csv_(
             field_types.append(float)
         else:
             field_types.append(object)
-            fields[field] = "s"
             log.debug(f"CSV field format '{format_}' is not defined and is set to 's'.")
+            format_ = "s"
 
-        fields[field] = f"%{fields[field]}"
+        formats[field] = f"%{format_}"
 
-    # Add date field to dataset
-    if "date" not in dset.fields:
-        dset.add_text("date", val=[d.strftime("%Y-%m-%d %H:%M:%S") for d in dset.time.datetime])
+    # Date of each observation (the given dataset is not changed)
+    if "date" in dset.fields:
+        dates = np.array(dset.date)
+    else:
+        dates = np.array([d.strftime("%Y-%m-%d %H:%M:%S") for d in dset.time.datetime])
 
     # Generate output_list with tuples, which include field values for each row
     output_list = list()
-    for field in fields.keys():
+    for field in formats.keys():
+        if field == "date" and "date" not in dset.fields:
+            output_list.append(dates)
+            continue
         words = field.split(".")
         name = words[0]
         if len(field) > 1:
@@ -97,17 +103,17 @@ def csv_(
     output_list = list(zip(*(output_list)))
 
     # List epochs ordered by dates
-    idx = np.concatenate([np.where(dset.filter(date=d))[0] for d in sorted(dset.unique("date"))])
+    idx = np.concatenate([np.where(dates == d)[0] for d in sorted(set(dates))])
            
     # Put together fields in an array as specified by the 'dtype' tuple list    
-    output_array = np.array(output_list, dtype=[(field, type_) for field, type_ in zip(fields, field_types)])[idx]
+    output_array = np.array(output_list, dtype=[(field, type_) for field, type_ in zip(formats, field_types)])[idx]
 
     # Write to disk
     np.savetxt(
         file_path,
         output_array,
-        fmt=tuple(format_ for format_ in fields.values()),
-        header=_get_csv_header(fields.keys()),
+        fmt=tuple(format_ for format_ in formats.values()),
+        header=_get_csv_header(formats.keys()),
         comments="",
         delimiter=",",
         encoding="utf8",
